@@ -225,10 +225,71 @@ func emitStatusOptionReuse(out *Out, r *Rng) {
 	out.Emit(Case{Op: "none", In: J{"authNonce": fmt.Sprint(s.is.authNonce)}, Impl: classify(e2), Prop: propOf(why), Tags: []string{"option-reused-across-verifications"}, NT: true})
 }
 
+// the registry's own bookkeeping: Get finds what Register stored, Delete removes exactly that type; the package-level functions act
+// on the default registry; the issuer DID put into a context comes back out of it
+func emitRegistryBookkeeping(out *Out, r *Rng) {
+	var why []string
+	reg := &verifiable.CredentialStatusResolverRegistry{}
+	a := statusResolver{func(st verifiable.CredentialStatus) (verifiable.RevocationStatus, error) { return verifiable.RevocationStatus{}, errors.New("a") }}
+	b := statusResolver{func(st verifiable.CredentialStatus) (verifiable.RevocationStatus, error) { return verifiable.RevocationStatus{}, errors.New("b") }}
+	reg.Delete(verifiable.SparseMerkleTreeProof) // deleting from an empty registry is harmless
+	reg.Register(verifiable.SparseMerkleTreeProof, a)
+	reg.Register(verifiable.Iden3commRevocationStatusV1, b)
+	answer := func(rv verifiable.CredentialStatusResolver) string {
+		if rv == nil {
+			return "nil"
+		}
+		_, err := rv.Resolve(context.Background(), verifiable.CredentialStatus{})
+		return fmt.Sprint(err)
+	}
+	if g, err := reg.Get(verifiable.SparseMerkleTreeProof); err != nil || answer(g) != "a" {
+		why = append(why, fmt.Sprintf("Get after Register: %v %v", answer(g), err))
+	}
+	reg.Delete(verifiable.SparseMerkleTreeProof)
+	if _, err := reg.Get(verifiable.SparseMerkleTreeProof); err == nil {
+		why = append(why, "a deleted resolver is still found")
+	}
+	if g, err := reg.Get(verifiable.Iden3commRevocationStatusV1); err != nil || answer(g) != "b" {
+		why = append(why, "deleting one type removed (or changed) another")
+	}
+	if _, err := verifiable.ValidateCredentialStatus(context.Background(), verifiable.CredentialStatus{ID: "x", Type: verifiable.SparseMerkleTreeProof, RevocationNonce: 1},
+		verifiable.WithValidationStatusResolverRegistry(reg)); err == nil {
+		why = append(why, "validation succeeds with a registry whose resolver for the type was deleted")
+	}
+	// the default registry through the package-level functions (a type of its own, so that nothing else is disturbed)
+	const tp = verifiable.CredentialStatusType("VerifBookkeepingStatusType")
+	defaultRegMu.Lock()
+	verifiable.RegisterStatusResolver(tp, a)
+	if g, err := verifiable.GetStatusResolver(tp); err != nil || answer(g) != "a" {
+		why = append(why, fmt.Sprintf("GetStatusResolver after RegisterStatusResolver: %v %v", answer(g), err))
+	}
+	if g, err := verifiable.DefaultCredentialStatusResolverRegistry.Get(tp); err != nil || answer(g) != "a" {
+		why = append(why, "RegisterStatusResolver did not register in the default registry")
+	}
+	verifiable.DeleteStatusResolver(tp)
+	if _, err := verifiable.GetStatusResolver(tp); err == nil {
+		why = append(why, "DeleteStatusResolver left the resolver in place")
+	}
+	defaultRegMu.Unlock()
+	if g, err := verifiable.GetStatusResolver(verifiable.Iden3ReverseSparseMerkleTreeProof); err != nil || g == nil {
+		why = append(why, "DeleteStatusResolver of one type removed another type from the default registry")
+	}
+	// issuer DID in the context
+	if d := verifiable.GetIssuerDID(context.Background()); d != nil {
+		why = append(why, "GetIssuerDID finds a DID in an empty context")
+	}
+	is := NewIssuer(r, 0)
+	if d := verifiable.GetIssuerDID(verifiable.WithIssuerDID(context.Background(), is.did)); d == nil || d.String() != is.did.String() {
+		why = append(why, "the issuer DID put into the context does not come back out of it")
+	}
+	out.Emit(Case{Op: "none", In: J{"registry": "bookkeeping"}, Impl: J{}, Prop: propOf(why), Tags: []string{"registry-bookkeeping"}, NT: true})
+}
+
 func genC09(out *Out, r *Rng, tier string, n int, shard int) {
 	ctx := context.Background()
 	faults := statusFaults()
 	setupDefaultRegistry()
+	emitRegistryBookkeeping(out, r)
 	for k := 0; k < 2+n/10; k++ {
 		emitStatusOptionReuse(out, r)
 	}
